@@ -26,6 +26,16 @@ fn opnd_from(v: &Value) -> Opnd {
         "dv" => {
             let mut d = v1::DecisionVariable::default();
             d.id = v["id"].as_u64().unwrap();
+            // the algebra must not depend on anything but the id; operands carry a kind and a bound to show that
+            if let Some(k) = v.get("vk").and_then(|k| k.as_str()) {
+                d.kind = kind_from(k);
+                if k == "binary" {
+                    let mut b = v1::Bound::default();
+                    b.lower = 0.0;
+                    b.upper = 1.0;
+                    d.bound = Some(b);
+                }
+            }
             Opnd::Dv(d)
         }
         "param" => {
